@@ -26,7 +26,7 @@ def main():
         res = load(os.path.join(resdir, name + ".json"))
         dst = os.path.join(HERE, "seeded", "%s-R%s%s-%s" % (prop, rnd, v, slug))
         os.makedirs(dst, exist_ok=True)
-        for f in ("patch.diff", "demo.py", "notes.md"):
+        for f in ("patch.diff", "demo.py", "notes.md", "patch.as-delivered.diff"):
             if os.path.exists(os.path.join(src, f)):
                 shutil.copy(os.path.join(src, f), os.path.join(dst, f))
         meta = {
